@@ -191,12 +191,18 @@ def run(ctx):
         f2 = ctx.func('sample_from_obs.' + nm)
         r, I = ctx.run(f2, no_inline=(SU + 'split_waterfall_generator', 'waterfall_utils.get_data'))
         g = [e for e in I.events if e.kind == 'call' and e.data['name'] == SU + 'split_waterfall_generator']
-        app = [e for e in I.events if e.kind == 'call' and e.data['name'] == '.append' and 'x_mean_array' in ast.unparse(e.data['recv_node'])]
+        # every collected statistic is a list with exactly one item per piece the generator yields
+        gret = g[0].data.get('ret') if g else None
+        comps = [a for a in T.all_atoms(r.ret).values() if a.kind == 'comp'] if r.ret is not None else []
+        per_piece = bool(comps) and gret is not None and all(
+            len(a.args[2]) == 1 and a.args[2][0].single_atom() is not None and len(a.args[2][0].single_atom().args) == 1
+            and a.args[2][0].single_atom().args[0].key == gret.key for a in comps)
+        want_n = 3 if nm == 'get_parameter_distributions' else 1
         ok = len(g) == 1 and all(g[0].data['bound'].get(p, NONE).key == sym(p).key for p in ('waterfall_fn', 'fchans', 'tchans', 'f_shift')) \
-            and len(app) == 1 and len(app[0].loops) == 1
+            and per_piece and len(comps) == want_n
         ctx.ob('AGREE', f'{nm}: one entry per piece of the split (arguments forwarded)', f2, ok,
-               {'generator_call': [e.text()[:100] for e in g], 'appends': [e.text() for e in app]}, node=f2.node,
-               construct=f'{nm} loop')
+               {'generator_call': [e.text()[:100] for e in g], 'returned': pretty(r.ret)[:300] if r.ret is not None else None},
+               node=f2.node, construct=f'{nm} loop')
 
 
 META = {
